@@ -208,6 +208,7 @@ def run_case(case):
         psk[cfg['id_a'].encode()] = cfg['psk_a'].encode()
     ob = OB.Observer(w)
     expected = {}
+    at_risk = {}
     base_children = 0
     for op in case['ops']:
         if fails:
@@ -218,6 +219,19 @@ def run_case(case):
                 w.deliver(w.inflight[op[1] % len(w.inflight)])
         elif k == 'flush':
             w.run_until_quiet()
+        elif k == 'rekey':
+            j = op[1] % len(cfgs)
+            peer_addr = ipaddress.ip_address(cfgs[j]['addr_b'])
+            if op[2]:
+                ep_, cands = peers[j], [q for q in peers[j].sas if q.state == State.ESTABLISHED]
+            else:
+                ep_, cands = a, [q for q in a.sas if q.peer_addr == peer_addr and q.state == State.ESTABLISHED]
+            if cands and not w.inflight:
+                w.trigger_ike_rekey(ep_, cands[0])
+                info['rekeys'] = info.get('rekeys', 0) + 1
+                for _ in range(op[3] % 4):          # deliver part of the exchange: request, response, delete, ...
+                    if w.inflight:
+                        w.deliver(w.inflight[0])
         elif k == 'restart':
             since = len(a.kernel.log)
             a.restart()
@@ -230,6 +244,7 @@ def run_case(case):
             except Exception:
                 pass
             expected = {}
+            at_risk = {}
             base_children = len(ob.children)
             check_startup(a, cfgs, since, fails, 'restart')
         elif k == 'acquire':
@@ -268,6 +283,16 @@ def run_case(case):
                 continue
             info['acquires'] += 1
             expected[j] = expected.get(j, 0) + 1
+            # known open finding F25: while the IKE_SA with that peer is being rekeyed and no successor is usable yet, an
+            # ACQUIRE is queued on the IKE_SA that is about to be replaced (and dropped with it), or its CREATE_CHILD_SA is
+            # answered TEMPORARY_FAILURE and never retried
+            in_rekey = (any(q.state == State.REK_IKE_SA_REQ_SENT for q in a.sas if q.peer_addr == peer_addr) or
+                        any(q.state == State.REK_IKE_SA_REQ_SENT for q in peers[j].sas))
+            if in_rekey:
+                at_risk[j] = at_risk.get(j, 0) + 1
+                info['in_rekey'] = info.get('in_rekey', 0) + 1
+                w.run_until_quiet()
+                continue
             if busy and not had:
                 # an exchange with that peer is in progress: the acquire may be queued; finish and look at the outcome only:
                 # every ACQUIRE so far must have led to a CHILD_SA with that peer
@@ -279,10 +304,13 @@ def run_case(case):
                     break
                 done = len([c for c in ob.children[base_children:] if c['init'] == str(a.addrs[0]) and
                             c['fwd']['daddr'] == str(peer_addr)])
-                if done < expected[j]:
+                if done < expected[j] - at_risk.get(j, 0):
                     fails.append(Failure('acquire-lost-while-busy', f'{expected[j]} ACQUIREs for peer {peer_addr} (the later ones '
                                                                     f'while a negotiation with it was in progress) led to only '
                                                                     f'{done} CHILD_SA(s)'))
+                elif done < expected[j]:
+                    fails.append(Failure('acquire-lost-during-ike-rekey', f'{expected[j] - done} ACQUIRE(s) for peer {peer_addr} issued '
+                                                                          f'while the IKE_SA was being rekeyed led to no CHILD_SA'))
                 continue
             if len(sent) != 1:
                 fails.append(Failure('acquire-no-request', f'an ACQUIRE for connection {j} entry {i} produced {len(sent)} datagrams'))
@@ -353,9 +381,12 @@ def run_case(case):
             for j, n in expected.items():
                 pa = cfgs[j]['addr_b']
                 done = len([c for c in ob.children[base_children:] if c['init'] == str(a.addrs[0]) and c['fwd']['daddr'] == pa])
-                if done < n:
+                if done < n - at_risk.get(j, 0):
                     fails.append(Failure('acquire-lost-while-busy', f'{n} ACQUIREs for peer {pa} (some while a negotiation with it was '
                                                                     f'in progress) led to only {done} CHILD_SA(s)'))
+                elif done < n:
+                    fails.append(Failure('acquire-lost-during-ike-rekey', f'{n - done} ACQUIRE(s) for peer {pa} issued while the IKE_SA '
+                                                                          f'was being rekeyed led to no CHILD_SA'))
         except Exception as ex:
             fails.append(Failure('observer-lost', f'reference observer cannot follow the wire: {ex}'))
     if not fails and case.get('close', True):
@@ -372,8 +403,8 @@ def body(case, stats):
     cfgs = case['cfgs']
     shape = [len(c['protect']) for c in cfgs]
     kl = [f'connections:{len(cfgs)}', f'entries:{sum(shape)}', 'outer:' + ('v6' if ':' in cfgs[0]['addr_a'] else 'v4')]
-    for k in ('acquires', 'reused', 'restarts', 'unknown'):
-        if info[k]:
+    for k in ('acquires', 'reused', 'restarts', 'unknown', 'rekeys', 'in_rekey'):
+        if info.get(k):
             kl.append('saw:' + k)
     for c in cfgs:
         for e in c['protect']:
@@ -397,7 +428,8 @@ def cases(draw):
     cfgs = draw(host_configs())
     acq = st.builds(lambda j, i, hs, hd, unk, nowait: ['acquire', j, i, hs, hd, unk, nowait], st.integers(0, 2), st.integers(0, 2),
                     st.integers(0, 300), st.integers(0, 300), st.sampled_from([False, False, False, True]), st.booleans())
-    ops = draw(st.lists(st.one_of(acq, acq, acq, st.just(['flush']), st.just(['restart']),
+    rekey = st.builds(lambda j, by_peer, n: ['rekey', j, by_peer, n], st.integers(0, 2), st.booleans(), st.integers(0, 3))
+    ops = draw(st.lists(st.one_of(acq, acq, acq, rekey, st.just(['flush']), st.just(['restart']),
                                   st.builds(lambda i: ['deliver', i], st.integers(0, 2))), min_size=1, max_size=10))
     return {'cfgs': cfgs, 'stale': draw(st.integers(0, 4)), 'ops': ops, 'close': True}
 
@@ -414,3 +446,6 @@ def run(ctx):
     n = 50 if ctx.quick else 2500
     for st_ in pmap(worker, [(n, ctx.seed * 64 + i) for i in range(common.NCPU)]):
         ctx.stats.merge(st_)
+    if not ctx.quick:
+        import sys as _sys
+        common.hyp_fuzz_stage(ctx, _sys.modules[__name__], 'cases()')
